@@ -235,15 +235,16 @@ def _execute(case, prefix, seed):
         def judge_check(cr, tag):
             h, r = bool(cr.is_healthy()), bool(cr.is_recoverable())
             obs[tag] = "healthy=%s recoverable=%s" % (h, r)
-            if t["judged_healthy"] and h != t["healthy"]:
-                sig = "reported-healthy-but-is-not" if h else "reported-unhealthy-but-is-healthy"
-                viol.append((sig, "%s: %s says healthy=%s; ground truth: %s (summary %r)" % (desc, tag, h, t["healthy"], cr.get_summary())))
             missed = []
             if verify and best_hidden:
                 listed = set(sh for (_s, _si, sh) in cr.get_corrupt_shares())
-                missed = [sh for sh in best_hidden if sh not in listed]
+                # (with a second copy of share 0 only one of the two copies is ever read: not judged here)
+                missed = [sh for sh in best_hidden if sh not in listed and not (extra and sh == 0)]
                 if missed:
-                    viol.append(("verify-misses-damaged-share", "%s: %s with verify=True lists corrupt shares %r; shares %r of the best version are damaged too (states %r) and were neither read nor reported; it reports count-good=%d recoverable=%s, ground truth recoverable=%s" % (desc, tag, sorted(listed), missed, [assign[sh] for sh in missed], cr.get_share_counter_good(), r, t["recoverable"])))
+                    viol.append(("verify-misses-damaged-share", "%s: %s with verify=True lists corrupt shares %r; shares %r of the best version are damaged too (states %r) and were neither read nor reported; it reports healthy=%s count-good=%d recoverable=%s, ground truth healthy=%s recoverable=%s" % (desc, tag, sorted(listed), missed, [assign[sh] for sh in missed], h, cr.get_share_counter_good(), r, t["healthy"], t["recoverable"])))
+            if t["judged_healthy"] and h != t["healthy"] and not missed:
+                sig = "reported-healthy-but-is-not" if h else "reported-unhealthy-but-is-healthy"
+                viol.append((sig, "%s: %s says healthy=%s; ground truth: %s (summary %r)" % (desc, tag, h, t["healthy"], cr.get_summary())))
             if t["judged_recoverable"] and r != t["recoverable"] and not missed:
                 sig = "reported-recoverable-but-is-not" if r else "reported-unrecoverable-but-is-recoverable"
                 viol.append((sig, "%s: %s says recoverable=%s; ground truth: %s" % (desc, tag, r, t["recoverable"])))
@@ -436,3 +437,11 @@ def run(tier, seed):
         "rule": "distinct_nontrivial = (layout, verify, operation) triples, each a different assignment of share states to slots run through check and repair; evaluations additionally count schedules; " + "; ".join(desc),
     }
     return res, cov
+
+
+MANIFEST = {
+    "engine": "E over G",
+    "technique": "exhaustive enumeration of share-state assignments (best / older / competing same-seqnum / newer fragment / missing / damaged prefix / damaged block / damaged signature field / truncated / damaged private key, plus a duplicated share number) built from captured share files of really published versions, each run through the real MutableChecker, Repairer and MutableCheckAndRepairer with verify in {F,T} and force in {F,T}; verdicts compared with ground truth computed by an independent parser of the files on disk",
+    "text": "Every layout is written to real storage servers; check(verify) then repair(force), or check_and_repair(verify), is executed on a node built from the write-cap. Healthy must hold exactly when one version is present on N distinct undamaged share numbers; an unforced repair must change nothing when a newer unrecoverable version or two recoverable versions of equal seqnum exist; a repair that reports success must leave the former best version's contents readable by a fresh client from N distinct share numbers with no damaged share left.",
+    "note": "k=2, N in {3,4}; the competing version is produced by a second writer on a grid restored from the disk snapshot taken before v3; thorough adds schedules with <= 1 deviation on the check and a production-like mode in which CPU-pool results arrive in a later reactor turn.",
+}
